@@ -798,6 +798,8 @@ func runFullQueue(id int, variant string, flood int) (okRun bool) {
 		return a, b, c, ok
 	}()
 	note("stateBefore=%d(sampled=%v)", st0, okS)
+	qn, qcap := ctube.VerifSenderQueue()
+	note("senderQueue=%d/%d", qn, qcap)
 	type r3 struct {
 		ok bool
 		e  string
@@ -811,6 +813,36 @@ func runFullQueue(id int, variant string, flood int) (okRun bool) {
 	note("c.Close=%v/%q(%dms)", rc.ok, rc.e, rc.d.Milliseconds())
 	note("c.Stop=%v(%dms)", rstop.ok, rstop.d.Milliseconds())
 	okRun = rc.ok && rstop.ok
+	blocked := ""
+	if !rc.ok || !rstop.ok {
+		// where the goroutines of the code under test are parked (evidence for the replay)
+		buf := make([]byte, 1<<20)
+		buf = buf[:runtime.Stack(buf, true)]
+		for _, g := range strings.Split(string(buf), "\n\n") {
+			if !strings.Contains(g, "hop/tubes.") {
+				continue
+			}
+			var fns []string
+			for _, ln := range strings.Split(g, "\n") {
+				if strings.HasPrefix(ln, "\t") || strings.HasPrefix(ln, "goroutine ") || strings.HasPrefix(ln, "created by") {
+					continue
+				}
+				if i := strings.LastIndex(ln, "("); i > 0 {
+					ln = ln[:i]
+				}
+				if j := strings.LastIndex(ln, "/"); j >= 0 {
+					ln = ln[j+1:]
+				}
+				fns = append(fns, ln)
+				if len(fns) == 6 {
+					break
+				}
+			}
+			if len(blocked) < 1500 {
+				blocked += strings.Join(fns, " < ") + " | "
+			}
+		}
+	}
 	if !rc.ok || !rstop.ok {
 		fail("C16:call-did-not-return-full-sender-queue", fmt.Sprintf("the tube's sender queue was filled by acknowledgements of %d duplicated data frames while the link was %s: Close returned=%v, Stop returned=%v within %v (the muxer receiver blocks on the full queue holding the tube lock; the queue's only consumer Reliable.send waits for that lock in its ticker/window branch)", flood, variant, rc.ok, rstop.ok, bound))
 	} else {
@@ -844,8 +876,8 @@ func runFullQueue(id int, variant string, flood int) (okRun bool) {
 		}
 	}
 	full := desc + " => " + strings.Join(rs, ", ")
-	hv.Emit(hv.Case{Class: "full-sender-queue", Desc: full, Spec: v.ok, Sig: v.sig, What: v.what, NT: true, Key: full,
-		Replay: map[string]interface{}{"scenario": desc, "results": rs}})
+	hv.Emit(hv.Case{Class: "full-sender-queue", Desc: full, Spec: v.ok, Sig: v.sig, What: v.what, NT: qn == qcap, Key: full,
+		Replay: map[string]interface{}{"scenario": desc, "results": rs, "parked_goroutines": blocked}})
 	hv.Flush()
 	return okRun
 }
@@ -853,12 +885,14 @@ func runFullQueue(id int, variant string, flood int) (okRun bool) {
 // Locally created (requesting side) Unreliable tubes closed around the arrival of the peer's RESP.
 // The peer's outgoing frames are held (latency) so that the tube is still `created` when the local
 // calls start; variants:
-//   gated-close-after-resp  the initiation goroutine is held at the yield point ut.initiate.initiated after
-//                           the RESP made the tube `initiated`; Close swaps the state and reaches its
-//                           wait for initiateDone; only then the initiation goroutine continues
-//   parked-write / parked-read  a goroutine parked in Write / Read (waiting for initiation) calls Close
-//                           as soon as its call returns (run with GOMAXPROCS(1) and default)
-//   close-while-created     Close before the RESP
+//
+//	gated-close-after-resp  the initiation goroutine is held at the yield point ut.initiate.initiated after
+//	                        the RESP made the tube `initiated`; Close swaps the state and reaches its
+//	                        wait for initiateDone; only then the initiation goroutine continues
+//	parked-write / parked-read  a goroutine parked in Write / Read (waiting for initiation) calls Close
+//	                        as soon as its call returns (run with GOMAXPROCS(1) and default)
+//	close-while-created     Close before the RESP
+//
 // Oracle (property text): every call returns within the bound; the first Close gives nil and a second
 // io.EOF; Write and Read after Close give io.EOF; WaitForClose and both Stops return; the goroutine
 // count settles.
